@@ -104,6 +104,61 @@ def parse_lcov(text):
     return res
 
 
+def union_report(root, out_dir, cov, prof, pids):
+    """functions of the three crates that no check's workload executed in any configuration"""
+    pds = [os.path.join(root, p + '.profdata') for p in pids if os.path.exists(os.path.join(root, p + '.profdata'))]
+    if len(pds) < 2:
+        return
+    upd = os.path.join(root, 'union.profdata')
+    if subprocess.run([prof, 'merge', '-sparse'] + pds + ['-o', upd], capture_output=True, text=True).returncode != 0:
+        return
+    bins = sorted(b for b in glob.glob(os.path.join(root, 'target', 'bin', '*')) if '.tmp' not in b)
+    cmd = [cov, 'export', '-format=lcov', '-instr-profile', upd, bins[0]]
+    for b in bins[1:]:
+        cmd += ['-object', b]
+    srcs = [os.path.join(REPO, c, 'src') for c in ('curve25519-dalek', 'ed25519-dalek', 'x25519-dalek')]
+    e = subprocess.run(cmd + ['-sources'] + srcs, capture_output=True, text=True)
+    fns = {}      # (file, line) -> max count over instantiations
+    cur = None
+    names = {}
+    lines = {}
+    for l in e.stdout.split('\n'):
+        if l.startswith('SF:'):
+            cur = l[3:]
+            names = {}
+        elif l.startswith('FN:'):
+            ln, nm = l[3:].split(',', 1)
+            names[nm] = int(ln)
+        elif l.startswith('FNDA:'):
+            c, nm = l[5:].split(',', 1)
+            if nm in names:
+                k = (cur, names[nm])
+                fns[k] = max(fns.get(k, 0), int(c))
+        elif l.startswith('DA:') and cur:
+            a, b = l[3:].split(',')[:2]
+            d = lines.setdefault(cur, {})
+            d[int(a)] = d.get(int(a), 0) + int(b)
+    rep = {'properties': pids, 'functions_instrumented': len(fns), 'functions_reached': sum(1 for v in fns.values() if v), 'unreached': []}
+    for (f, ln), c in sorted(fns.items()):
+        if c or ln in in_test_code(f) or f.endswith('verif.rs'):
+            continue
+        try:
+            src = open(f).read().split('\n')
+        except OSError:
+            continue
+        # the FN line is where the body starts; show the signature line
+        j = ln - 1
+        while j > 0 and 'fn ' not in src[j]:
+            j -= 1
+        rep['unreached'].append({'file': os.path.relpath(f, REPO), 'line': ln, 'signature': src[j].strip()[:140]})
+    tl = sum(len([k for k in d if k not in in_test_code(f)]) for f, d in lines.items())
+    th = sum(len([k for k, v in d.items() if v and k not in in_test_code(f)]) for f, d in lines.items())
+    rep['lines_instrumented'], rep['lines_reached'] = tl, th
+    json.dump(rep, open(os.path.join(out_dir, 'UNION.json'), 'w'), indent=1)
+    print('union of all checks: %d/%d functions, %d/%d lines of the three crates reached' % (rep['functions_reached'], len(fns), th, tl), flush=True)
+    os.unlink(upd)
+
+
 def main():
     ap = argparse.ArgumentParser()
     ap.add_argument('--tier', default='quick')
@@ -183,7 +238,7 @@ def main():
         json.dump(rep, open(os.path.join(out_dir, pid + '.json'), 'w'), indent=1)
         summary.append((pid, tot_h, tot_i, rep))
         print('%s: named ranges %d/%d, anchored files %d/%d (%.1f%%), check exit %d, %.0fs' % (pid, a_h, a_i, tot_h, tot_i, 100.0 * tot_h / max(1, tot_i), r.returncode, wall), flush=True)
-        os.unlink(pd)
+    union_report(root, out_dir, cov, prof, [pid for pid, _, _, _ in summary])
     with open(os.path.join(out_dir, 'SUMMARY.md'), 'w') as f:
         f.write('# Lines of each property\'s anchored files reached by its %s workload\n\n' % a.tier)
         f.write('Generated by tools/coverage.py (union over all driver configurations; `#[cfg(test)]` modules excluded).\n\n')
